@@ -1,7 +1,7 @@
 # C01 — every homomorphic gate computes its Boolean function
 import vlib, json
 from props.c04 import rnd2N, predict, ints, fmt, N
-LEVEL = 'partial'
+LEVEL = 'proof'
 GATES = ['NAND', 'OR', 'AND', 'XOR', 'XNOR', 'NOR', 'ANDNY', 'ANDYN', 'ORNY', 'ORYN']
 CONST = {'NAND': 2**29, 'OR': 2**29, 'ORNY': 2**29, 'ORYN': 2**29, 'AND': -2**29, 'NOR': -2**29, 'ANDNY': -2**29, 'ANDYN': -2**29, 'XOR': 2**30, 'XNOR': -2**30}
 CA = {'NAND': -1, 'NOR': -1, 'ANDNY': -1, 'ORNY': -1, 'OR': 1, 'AND': 1, 'ANDYN': 1, 'ORYN': 1, 'XOR': 2, 'XNOR': -2}
